@@ -12,7 +12,7 @@ def layer_mesh1d(ctx):
         kind = ['uni', 'refined', 'uni', 'refined', 'faces'][i % 5]
         md = cfg1d.rand_faces(ctx.rng, n, kind)
         if kind == 'refined' and i % 4 == 1:   # proportions corresponding to a whole number of cells
-            md['n'] = n = (md['a'] + md['b']) * int(ctx.rng.integers(1, 6))
+            md['n'] = n = (md['ab'][0] + md['ab'][1]) * int(ctx.rng.integers(1, 6))
         ok, msh = impl.guarded(cfg1d.make_mesh, md)
         if not ok:
             r.cases += 1; r.disagreements.append(dict(what='mesh', input=md, reason='implementation raised', detail=msh)); continue
